@@ -776,6 +776,13 @@ namespace awkward {
     while (stream.Peek() != 0) {
       handler.reset_moved();
       bool fully_parsed = reader.Parse<rj::kParseStopWhenDoneFlag>(stream, handler);
+      if (!fully_parsed  &&  !handler.moved()  &&
+          reader.GetParseErrorCode() != rj::kParseErrorDocumentEmpty  &&
+          stream.Peek() == 0) {
+        throw std::invalid_argument(
+            std::string("incomplete JSON object at the end of the stream")
+            + FILENAME(__LINE__));
+      }
       if (handler.moved()) {
         if (!fully_parsed) {
           if (stream.Peek() == 0) {
